@@ -118,3 +118,33 @@ fn c28_opt_markers_distinct() {
     assert!(parsed != u64::MAX, "a Some(_) length is read as the None marker");
     kani::cover!(true, "reached");
 }
+
+/// Serial (manifest number, 20 octets): every value that `from_array` accepts is written as 20 octets that
+/// read back as the same value, leaving the reader empty.
+#[kani::proof]
+#[kani::unwind(22)]
+fn c28_roundtrip_serial() {
+    let raw: [u8; 20] = kani::any();
+    let v = match Serial::from_array(raw) {
+        Ok(v) => v,
+        Err(_) => return,
+    };
+    let mut buf = [0u8; 24];
+    let n;
+    {
+        let mut w = &mut buf[..];
+        assert!(v.compose(&mut w).is_ok());
+        n = written(24, w);
+    }
+    assert!(n == 20, "encoding has an unexpected length");
+    let mut r = &buf[..n];
+    let back = <Serial as Parse<&[u8]>>::parse(&mut r);
+    assert!(back.is_ok(), "a written serial does not parse");
+    let b = back.unwrap().into_array();
+    let a = v.into_array();
+    let mut i = 0;
+    while i < 20 { assert!(a[i] == b[i], "Serial reads back differently"); i += 1; }
+    assert!(r.is_empty(), "the parser did not consume exactly the bytes written");
+    kani::cover!(raw[0] != 0, "value above 2^152");
+    kani::cover!(true, "reached");
+}
